@@ -98,7 +98,9 @@ func (set *SortedSet) GetRandom(count int) []MemberParam {
 
 	members := set.GetAll()
 
-	if internal.AbsInt(count) >= len(members) {
+	// A non-negative count never yields more than the distinct members; a negative count asks for
+	// exactly |count| picks, repetitions allowed, however small the set is.
+	if count >= len(members) || len(members) == 0 {
 		return members
 	}
 
